@@ -68,7 +68,7 @@ class Lexer(object):
 
     @TOKEN(r"[\r\n]+")
     def t_newline(self, t):
-        t.lexer.lineno += len(t.value)
+        t.lexer.lineno += len(t.value) - t.value.count("\r\n")
 
     @TOKEN(r"[^\#\:\,\=\(\)\[\]\"\'\r\n]+")
     def t_PLAIN_STRING(self, t):
